@@ -184,7 +184,7 @@ func RunImpl(t *testing.T, sc *Scenario) (res *ImplRun) {
 func runInBubble(sc *Scenario, res *ImplRun) {
 	run := &runner{sc: sc, clients: map[int]*client{}, subIDs: map[string]int64{}, regIDs: map[string]int64{}, start: time.Now(),
 		namer: NewPubNamer(), env: &canonEnv{sidMap: map[string]string{}, authIDs: map[string]bool{}}}
-	cfg := &router.Config{}
+	cfg := &router.Config{Debug: sc.Debug}
 	for i := range sc.Realms {
 		if sc.Template && i >= sc.TplFrom {
 			if i == sc.TplFrom {
